@@ -151,9 +151,16 @@ theorem spans_not_misses {e : Seg} {x0 x1 : Rat} (h01 : x0 < x1) (hs : spansSlab
   have h2 : ¬ x1 ≤ segMinX e := by intro h; linarith
   simp [hne, h1, h2]
 
-theorem checkSlab_sound (all : List Tagged) (f : Array Bool → Bool) (n : Nat) (x0 x1 : Rat) (acc r : Nat × Nat)
-    (h01 : x0 < x1) (h : checkSlab all f n 0 x0 x1 acc = .inr r)
-    (q : Pt) (h0 : x0 < q.x) (h1 : q.x < x1) (hclear : ∀ t ∈ all, onSeg q t.seg = false) :
+/-- the cell of `q` is thicker than the tolerance: any spanning edge below `q` and any spanning edge above
+    `q` are more than `tol` apart at the middle of the slab -/
+def ThickAt (all : List Tagged) (tol x0 x1 : Rat) (q : Pt) : Prop :=
+  ∀ a ∈ all, ∀ b ∈ all, spansSlab a.seg x0 x1 = true → spansSlab b.seg x0 x1 = true →
+    yAt a.seg q.x < q.y → q.y < yAt b.seg q.x → tol < yAt b.seg ((x0 + x1) / 2) - yAt a.seg ((x0 + x1) / 2)
+
+theorem checkSlab_sound_tol (all : List Tagged) (f : Array Bool → Bool) (n : Nat) (tol x0 x1 : Rat) (acc r : Nat × Nat)
+    (htol : 0 ≤ tol) (h01 : x0 < x1) (h : checkSlab all f n tol x0 x1 acc = .inr r)
+    (q : Pt) (h0 : x0 < q.x) (h1 : q.x < x1) (hclear : ∀ t ∈ all, onSeg q t.seg = false)
+    (hthick : tol = 0 ∨ ThickAt all tol x0 x1 q) :
     f (vecOf n (all.filter (fun t => edgeBelow q t.seg))) = true := by
   unfold checkSlab at h
   simp only at h
@@ -171,7 +178,7 @@ theorem checkSlab_sound (all : List Tagged) (f : Array Bool → Bool) (n : Nat) 
   rw [Bool.and_eq_true] at hord
   obtain ⟨ho0, ho1⟩ := hord
   -- the walk succeeded
-  cases hw : walkGaps f n 0 ((x0 + x1) / 2) [] sorted acc with
+  cases hw : walkGaps f n tol ((x0 + x1) / 2) [] sorted acc with
   | inl x => rw [hw] at h; cases x <;> simp at h
   | inr r' =>
     have hperm : List.Perm sorted S := by rw [← hsorted]; exact sortByY_perm _ S
@@ -210,7 +217,7 @@ theorem checkSlab_sound (all : List Tagged) (f : Array Bool → Bool) (n : Nat) 
     obtain ⟨j, hj, hpre, hbelow, habove⟩ := filter_lt_is_prefix (fun t => yAt t.seg q.x) q.y sorted pq
     rw [hpre]
     -- Step 5: the gap above the first j edges is a real cell
-    have hreal : RealGap 0 ((x0 + x1) / 2) [] sorted j := by
+    have hreal : RealGap tol ((x0 + x1) / 2) [] sorted j := by
       unfold RealGap
       by_cases hjl : j = sorted.length
       · exact Or.inl hjl
@@ -248,22 +255,34 @@ theorem checkSlab_sound (all : List Tagged) (f : Array Bool → Bool) (n : Nat) 
             exact p1.2.2 a hamem _ hbmem
           have hna := spans_nonvertical ha_span
           have hnb := spans_nonvertical hb_span
-          have hle := yAt_le_inside a.seg sorted[j].seg hna hnb x0 x1 ((x0 + x1) / 2) h01 hxm0 hxm1 hrel0 hrel1
-          have hne : yAt a.seg ((x0 + x1) / 2) ≠ yAt sorted[j].seg ((x0 + x1) / 2) := by
-            intro heq
-            have := yAt_eq_inside a.seg sorted[j].seg hna hnb x0 x1 q.x h01 hrel0 hrel1 heq
-            linarith
+          have hth : tol < yAt sorted[j].seg ((x0 + x1) / 2) - yAt a.seg ((x0 + x1) / 2) := by
+            rcases hthick with h0' | hthick
+            · -- tolerance 0: ordered at both ends and different at q.x, hence different in the middle
+              have hle := yAt_le_inside a.seg sorted[j].seg hna hnb x0 x1 ((x0 + x1) / 2) h01 hxm0 hxm1 hrel0 hrel1
+              have hne : yAt a.seg ((x0 + x1) / 2) ≠ yAt sorted[j].seg ((x0 + x1) / 2) := by
+                intro heq
+                have := yAt_eq_inside a.seg sorted[j].seg hna hnb x0 x1 q.x h01 hrel0 hrel1 heq
+                linarith
+              rw [h0']
+              have : yAt a.seg ((x0 + x1) / 2) < yAt sorted[j].seg ((x0 + x1) / 2) := lt_of_le_of_ne hle hne
+              linarith
+            · have hamem_all : a ∈ all := hmemS _ (hperm.mem_iff.mp (List.mem_of_mem_take hamem))
+              have hbmem_all : sorted[j] ∈ all := hmemS _ (hperm.mem_iff.mp (List.getElem_mem hjlt))
+              exact hthick a hamem_all sorted[j] hbmem_all ha_span hb_span hay hby
           unfold gapKind
           simp only
           have hd : yAt sorted[j].seg ((x0 + x1) / 2) - yAt a.seg ((x0 + x1) / 2) ≠ 0 := by
-            intro h'; apply hne; linarith
-          have hpos : ¬ yAt sorted[j].seg ((x0 + x1) / 2) - yAt a.seg ((x0 + x1) / 2) ≤ 0 := by
-            intro h'
-            apply hd
-            have : 0 ≤ yAt sorted[j].seg ((x0 + x1) / 2) - yAt a.seg ((x0 + x1) / 2) := by linarith
-            linarith
+            intro h'; rw [h'] at hth; linarith
+          have hpos : ¬ yAt sorted[j].seg ((x0 + x1) / 2) - yAt a.seg ((x0 + x1) / 2) ≤ tol := by
+            intro h'; linarith
           simp [hd, hpos]
-    have := walkGaps_sound f n 0 ((x0 + x1) / 2) sorted [] acc r' hw j hj hreal
+    have := walkGaps_sound f n tol ((x0 + x1) / 2) sorted [] acc r' hw j hj hreal
     simpa using this
+
+theorem checkSlab_sound (all : List Tagged) (f : Array Bool → Bool) (n : Nat) (x0 x1 : Rat) (acc r : Nat × Nat)
+    (h01 : x0 < x1) (h : checkSlab all f n 0 x0 x1 acc = .inr r)
+    (q : Pt) (h0 : x0 < q.x) (h1 : q.x < x1) (hclear : ∀ t ∈ all, onSeg q t.seg = false) :
+    f (vecOf n (all.filter (fun t => edgeBelow q t.seg))) = true :=
+  checkSlab_sound_tol all f n 0 x0 x1 acc r (le_refl 0) h01 h q h0 h1 hclear (Or.inl rfl)
 
 end Gbo.Spec
